@@ -192,7 +192,8 @@ def generated_set(seed, i):
         elif m == "multibyte_then_error":
             b = rng.randrange(sp.k)
             ch = rng.choice(["é", "€", "😀", "ß字"])
-            files[sp.files[b]] += ('\nfn zz_mb()\n{\n\tprint!("h%sllo %s", zz_missing_one);\n\tvar q = "%s%s"; var r = zz_missing_two;\n}\n' % (ch, ch, ch, ch))
+            files[sp.files[b]] += ('\nfn zz_mb()\n{\n\tprint!("h%sllo %s", zz_missing_one);\n\tvar q = "%s%s"; var r = zz_missing_two;\n'
+                                   '\tvar u = "http://x // not a comment %s"; var t = zz_missing_three; // %s "tail"\n}\n' % (ch, ch, ch, ch, ch, ch))
         elif m == "lints_in_two_files":
             # a lint located in an imported file (truncated literal in a pub
             # constant) next to lints of the importer's own
@@ -278,7 +279,7 @@ def mutated_set(seed, i, corpus):
     data = base["files"][name]
     ops = []
     for _ in range(rng.randint(1, 3)):
-        op = rng.choice(["byte", "delete", "dup_line", "drop_line", "multibyte", "crlf", "truncate", "truncate_clean", "trailing_backslash", "token_swap", "insert_token"])
+        op = rng.choice(["byte", "delete", "dup_line", "drop_line", "multibyte", "crlf", "truncate", "truncate_clean", "trailing_backslash", "token_swap", "insert_token", "decorate", "decorate"])
         ops.append(op)
         if not data:
             break
@@ -319,6 +320,27 @@ def mutated_set(seed, i, corpus):
             if quotes:
                 q = rng.choice(quotes)
                 data = data[:q + 1] + rng.choice([b"", b"Is ", b"a b"]) + b"\\"
+        elif op == "decorate":
+            # unusual but valid layout in front of whatever the file has to say:
+            # comments with multi-byte characters and quotes, trailing blanks,
+            # tab/space indentation, blank lines with whitespace
+            try:
+                lines = data.decode().split("\n")
+            except UnicodeDecodeError:
+                continue
+            out = []
+            for line in lines:
+                r = rng.random()
+                if r < 0.15:
+                    out.append(rng.choice(["// ünïcödé \"quoted\" 'c' \\ €", "\t \t", "//字字字 // nested", "   // tabs\tinside\there"]))
+                if r > 0.6 and line.strip() and '"' not in line and "'" not in line and not line.rstrip().endswith("\\"):
+                    line = line + rng.choice(["  ", "\t", " // é€😀 \"x", "\t// 'q' //"])
+                if r > 0.85:
+                    line = line.replace("\t", "    ")
+                out.append(line)
+            data = "\n".join(out).encode()
+            if rng.random() < 0.3:
+                data = data.rstrip(b"\n")
         elif op == "token_swap":
             toks = re.split(rb"(\s+)", data)
             if len(toks) > 4:
